@@ -8,6 +8,7 @@
   `_update_db_from_other_db` (`if other_db == self: return`) l.1128, `subset` l.1170, `__deepcopy__`.
 -/
 import CogentModel.Model.AnnotDb
+import CogentModel.Model.AnnotDbRoundTrip
 import CogentModel.Spec.AnnotDb
 namespace CogentModel.AnnotDb
 
@@ -19,13 +20,14 @@ inductive Op where
   | update (i k : Nat) (seqids : Option CondVal)     -- `dbs[i].update(dbs[k], seqids=…)`
   | union (i k : Nat)                                -- `dbs[i].union(dbs[k])`: appended
   | subset (i : Nat) (q : Query)                     -- `dbs[i].subset(**q)`: appended
-  | copy (i : Nat)                                   -- deepcopy / pickle / write+reload / json (in memory): appended
+  | copy (i : Nat)                                   -- deepcopy / pickle / write+reload (byte image of the connection): appended
+  | copyJson (i : Nat)                               -- `deserialise_object(dbs[i].to_json())` of an in-memory db: appended
   deriving Repr, Inhabited
 
 /-- a register index that does not exist is not a python call at all -/
 def Op.inRange (n : Nat) : Op → Bool
   | .new _ => true
-  | .add i _ | .addTable i _ _ | .subset i _ | .copy i => i < n
+  | .add i _ | .addTable i _ _ | .subset i _ | .copy i | .copyJson i => i < n
   | .update i k _ | .union i k => i < n && k < n
 
 /-- one call on the register; `.error` = the call raised (the register is as before) -/
@@ -66,7 +68,11 @@ def stepOp (dbs : List Db) : Op → Except Err (List Db)
     | none => .error .typeError
   | .copy i =>
     match dbs[i]? with
-    | some d => .ok (dbs ++ [d])
+    | some d => .ok (dbs ++ [deepcopyDb d false])
+    | none => .error .typeError
+  | .copyJson i =>
+    match dbs[i]? with
+    | some d => .ok (dbs ++ [jsonRoundTrip d false])
     | none => .error .typeError
 
 /-- a whole history; stops at the first call that raises -/
@@ -91,6 +97,7 @@ def specStep (ms : List (List Rec)) : Op → List (List Rec)
   | .union i k => ms ++ [ms[i]?.getD [] ++ ms[k]?.getD []]
   | .subset i q => ms ++ [linearScan (ms[i]?.getD []) q]
   | .copy i => ms ++ [ms[i]?.getD []]
+  | .copyJson i => ms ++ [ms[i]?.getD []]
 
 def specHistory (ms : List (List Rec)) (ops : List Op) : List (List Rec) := ops.foldl specStep ms
 
